@@ -2,3 +2,6 @@ pub mod c01;
 pub mod c24;
 pub mod c27;
 pub mod c28;
+pub mod c22;
+pub mod c23;
+pub mod c34;
